@@ -151,8 +151,9 @@ def run(ctx):
     known = set()
     terms, kept = [], []
     solved = failed_solve = 0
-    for (s, l, span, height, load) in cfgs:
-        args = ["generate", "--type", "retic", "--spans", str(s), "--levels", str(l), "--span", G_dec(span), "--level", G_dec(height), "--load", G_dec(load)]
+    for k_cfg, (s, l, span, height, load) in enumerate(cfgs):
+        # both documented spellings of the typology, and the short flags
+        args = ["generate", "--type", ("retic", "reticular", "retic")[k_cfg % 3], "--spans", str(s), "--levels", str(l), "--span", G_dec(span), "--level", G_dec(height), "--load", G_dec(load)]
         r = cli.run(ctx, args, name="c19")
         cfg = [s, l, str(span), str(height), str(load)]
         if r.status != 0 or r.timeout:
